@@ -67,6 +67,7 @@ PLAN = {
              "(thorough) x usize/u64/u128 x slices at offsets x n<K, n=K, n>K",
     ),
     "C09": dict(
+        gen=dict(quick=[("Gen_C09", "Gen_C09.cfg")], thorough=[("Gen_C09", "Gen_C09_T.cfg")]),
         traces=[("c09", (1, None)), ("c09all", (None, 1)), ("c09x", (2, 4))],
         seeds=dict(quick=1, thorough=2), seeded={"c09x": False},
         mc=dict(quick=["MC_C09"]),
@@ -99,6 +100,7 @@ PLAN = {
              "mismatches +-1, +-2",
     ),
     "C13": dict(
+        gen=dict(quick=[("Gen_C13", "Gen_C13.cfg")]),
         traces=[("c13", (30, 300))],
         codecs={"c13": ["dna"]},
         seeds=dict(quick=1, thorough=3),
@@ -108,6 +110,7 @@ PLAN = {
              "sequences by windows(3)/chunks(3) and wrong-length codons",
     ),
     "C14": dict(
+        gen=dict(quick=[("Gen_C14", "Gen_C14.cfg")], thorough=[("Gen_C14", "Gen_C14_T.cfg")]),
         traces=[("c14", (1, None)), ("c14all", (None, 1))],
         codecs={"c14": ["iupac"], "c14all": ["iupac"]}, seeded={"c14": False, "c14all": False},
         mc=dict(quick=["MC_C14"]),
@@ -116,6 +119,7 @@ PLAN = {
              "lengths 0,1,2,4,5, trytocodon for all 21 residues and back; finite domain enumerated completely",
     ),
     "C15": dict(
+        gen=dict(quick=[("Gen_C15", "Gen_C15.cfg")]),
         traces=[("c15", (24, 200))],
         codecs={"c15": ["dna", "iupac"]},
         seeds=dict(quick=1, thorough=4),
